@@ -431,6 +431,44 @@ def RT.binding (r : RT) (id : Nat) : Option (Nat × Bool) :=
     `o` in the other half -/
 def compose14 (coarse : Bool) (v o : Nat) : Nat := if coarse then v * 128 + o else o * 128 + v
 
+/-- **Specification of the learn table** (what the statement says about the non-realtime
+    half, with no reference to snapshots, slots or `inv_map`): the addresses queued for
+    learning, oldest first, and which parameter each controller drives. -/
+structure Table where
+  queue : List (Nat × Bool)
+  bound : Nat → Option (Nat × Bool)
+
+/-- `unMap(a,k)`: whoever drives `(a,k)` stops; nobody else moves -/
+def Table.unmap (t : Table) (a : Nat) (k : Bool) : Table :=
+  { t with bound := fun id => if t.bound id = some (a, k) then none else t.bound id }
+
+/-- `map(a,k)`: nothing if already queued; else its controller is forgotten and it is queued last -/
+def Table.map (t : Table) (a : Nat) (k : Bool) : Table :=
+  if (a, k) ∈ t.queue then t else { (t.unmap a k) with queue := t.queue ++ [(a, k)] }
+
+/-- a not yet assigned controller asks: it gets the OLDEST queued address -/
+def Table.learn (t : Table) (id : Nat) : Table :=
+  match t.queue with
+  | [] => t
+  | (a, k) :: q => { queue := q, bound := fun x => if x = id then some (a, k) else t.bound x }
+
+def Table.clear : Table := ⟨[], fun _ => none⟩
+
+/-- what a step of the system does to the table; `req` is the oldest pending request
+    (only a delivery to the non-realtime half consumes it) -/
+def Table.step (t : Table) (op : Op) (req : Option Nat) : Table :=
+  match op with
+  | .map a k => t.map a k
+  | .unmap a k => t.unmap a k
+  | .clear => Table.clear
+  | .deliverNRT => match req with
+    | some id => t.learn id
+    | none => t
+  | _ => t
+
+/-- the table the non-realtime half implements -/
+def tableOf (n : NRT) : Table := ⟨n.learnQ, n.binding⟩
+
 /-- both channels are empty: nothing is under way between the halves -/
 def Sys.quiescent (s : Sys) : Prop := s.toRT = [] ∧ s.toNRT = []
 
